@@ -17,11 +17,22 @@ type snippet struct {
 //
 //nolint:gocognit
 func ParseQuery(query string) (*Query, error) {
-	snippets, err := extractSnippets(query)
+	snippets, quoted, err := extractQuotedSnippets(query)
 	if err != nil {
 		return nil, err
 	}
 	snippetsPos := 0
+
+	// isKeyword reports whether the snippet may be a structural token: tokens
+	// that were given in quotes never are.
+	isKeyword := func(s *snippet) bool {
+		for i, candidate := range snippets {
+			if candidate == s {
+				return !quoted[i]
+			}
+		}
+		return true
+	}
 
 	getSnippet := func() (*snippet, error) {
 		// order is important, as parseAndOr will always consume one additional snippet.
@@ -64,7 +75,7 @@ func ParseQuery(query string) (*Query, error) {
 			}
 
 			// parse conditions
-			condition, err := parseAndOr(getSnippet, remainingSnippets, true)
+			condition, err := parseAndOr(getSnippet, remainingSnippets, isKeyword, true)
 			if err != nil {
 				return nil, err
 			}
@@ -122,6 +133,13 @@ func ParseQuery(query string) (*Query, error) {
 }
 
 func extractSnippets(text string) (snippets []*snippet, err error) {
+	snippets, _, err = extractQuotedSnippets(text)
+	return snippets, err
+}
+
+// extractQuotedSnippets splits the text into snippets and reports for every
+// snippet whether it was given in quotes.
+func extractQuotedSnippets(text string) (snippets []*snippet, quoted []bool, err error) {
 	skip := false
 	start := -1
 	inParenthesis := false
@@ -146,6 +164,7 @@ func extractSnippets(text string) (snippets []*snippet, err error) {
 					text:           prepToken(text[start+1 : pos]),
 					globalPosition: start + 1,
 				})
+				quoted = append(quoted, true)
 				start = -1
 				inParenthesis = false
 			}
@@ -160,6 +179,7 @@ func extractSnippets(text string) (snippets []*snippet, err error) {
 					text:           prepToken(text[start:pos]),
 					globalPosition: start + 1,
 				})
+				quoted = append(quoted, false)
 				start = -1
 			}
 		default:
@@ -175,9 +195,10 @@ func extractSnippets(text string) (snippets []*snippet, err error) {
 				text:           text[pos : pos+1],
 				globalPosition: pos + 1,
 			})
+			quoted = append(quoted, false)
 		case '"':
 			if start < pos {
-				return nil, fmt.Errorf("parenthesis ('\"') may not be used within words, please escape with '\\' (position: %d)", pos+1)
+				return nil, nil, fmt.Errorf("parenthesis ('\"') may not be used within words, please escape with '\\' (position: %d)", pos+1)
 			}
 			inParenthesis = true
 		}
@@ -195,13 +216,14 @@ func extractSnippets(text string) (snippets []*snippet, err error) {
 			text:           prepToken(text[tokenStart:]),
 			globalPosition: start + 1,
 		})
+		quoted = append(quoted, inParenthesis)
 	}
 
-	return snippets, nil
+	return snippets, quoted, nil
 }
 
 //nolint:gocognit
-func parseAndOr(getSnippet func() (*snippet, error), remainingSnippets func() int, rootCondition bool) (Condition, error) {
+func parseAndOr(getSnippet func() (*snippet, error), remainingSnippets func() int, isKeyword func(*snippet) bool, rootCondition bool) (Condition, error) {
 	var (
 		isOr          = false
 		typeSet       = false
@@ -227,9 +249,14 @@ func parseAndOr(getSnippet func() (*snippet, error), remainingSnippets func() in
 		if err != nil {
 			return nil, err
 		}
+		// A quoted token is always a key, never a structural token.
+		keyword := firstSnippet.text
+		if !isKeyword(firstSnippet) {
+			keyword = ""
+		}
 
 		if !expectingMore && rootCondition {
-			switch firstSnippet.text {
+			switch keyword {
 			case "orderby", "limit", "offset":
 				if len(conditions) == 1 {
 					return conditions[0], nil
@@ -241,9 +268,9 @@ func parseAndOr(getSnippet func() (*snippet, error), remainingSnippets func() in
 			}
 		}
 
-		switch firstSnippet.text {
+		switch keyword {
 		case "(":
-			condition, err := parseAndOr(getSnippet, remainingSnippets, false)
+			condition, err := parseAndOr(getSnippet, remainingSnippets, isKeyword, false)
 			if err != nil {
 				return nil, err
 			}
@@ -346,8 +373,10 @@ func prepToken(text string) string {
 
 // escapeString correctly escapes a snippet for printing.
 func escapeString(token string) string {
-	// check if token is empty or contains characters that need to be escaped
-	if token == "" || strings.ContainsAny(token, "()\"\\\t\r\n ") {
+	// check if token is empty, contains characters that need to be escaped,
+	// or is a structural token of the query language
+	if token == "" || token == "and" || token == "or" || token == "not" ||
+		strings.ContainsAny(token, "()\"\\\t\r\n ") {
 		// put the token in parenthesis and escape \ and " within
 		token = strings.ReplaceAll(token, "\\", "\\\\")
 		token = strings.ReplaceAll(token, "\"", "\\\"")
